@@ -26,7 +26,18 @@ func checkC10(p *Prog, r *Report) {
 	// mounted store
 	if wd := BuildWire(p); len(wd.Upgrades) > 0 {
 		checkStoreDescriptors(p, r, kp, wd)
+		// … and a restarted node has a handler for every upgrade the chain has completed (x/upgrade checks it in the first
+		// BeginBlock of every process) and a store loader for every planned one
+		for _, mname := range []string{"setupUpgradeHandlers", "setupUpgradeStoreLoaders"} {
+			if fn := p.Method(Rel("app"), "App", mname); fn != nil {
+				r.Check(upgradesLoopCoversAll(p, fn, mname == "setupUpgradeStoreLoaders"), kp("WIRE", "app."+mname+"#ranges-over-Upgrades"), "the set-up loop iterates the whole Upgrades slice", p.FnPos(fn),
+					"every descriptor is visited", mname+" does not visit every element of Upgrades: a node restarted after the omitted upgrade has no handler for it and panics in its first BeginBlock, while a node that kept running goes on")
+			}
+		}
 	}
+	// D1c the configuration the application computes at start-up does not depend on map iteration order (a restarted process
+	// iterates its maps in another order than the one it replaces)
+	checkWiringMapRanges(p, r, kp)
 	// D1b … nor in process-wide registries or long-lived objects of other modules (lost on restart, never rolled back)
 	checkProcessWideState(p, r, kp, scope)
 	channels, writes := hiddenStateChannels(p, scope, scope)
